@@ -3,7 +3,7 @@ and dispatch arms; ordered-choice shadowing of operator literals."""
 from ..engine import RuleResult
 from ..grammar import Grammar
 from .. import tablesrc
-from ..model import enum_switches
+from ..model import enum_switches, arm_region
 
 # docs notations that are not the operator's own literal: frozen, with the reason
 DOC_NOTATION = {
@@ -247,4 +247,102 @@ def run_precedence(ctx):
         res.bad("shape:expr-children", "children of `expr` do not contain all operator rules: missing %s" % sorted(ops_all - labels),
                 "parser/src/simplesl.pest")
     res.stats["operators"] = len(ops_all)
+    return res
+
+
+# ---------------------------------------------------------------------------------------------------------------
+# dispatch tables: every alternative the grammar can hand to a pair-walking function has an arm there
+
+DISPATCH = [
+    # (function, grammar rules whose alternatives it must handle, extra rules handled elsewhere {rule: where}, floor)
+    ("instruction::InstructionWithStr::create_primary", ["primary"], {}, 14),
+    ("instruction::Instruction::new", ["line", "stm", "body"], {}, 16),
+    ("<variable::r#type::Type as std::convert::From<pest::iterators::Pair<'_, simplesl_parser::Rule>>>::from", ["type"], {}, 13),
+    ("instruction::control_flow::match_arm::MatchArm::new", ["match_arm"], {}, 3),
+    ("<variable::Variable as std::convert::TryFrom<pest::iterators::Pair<'_, simplesl_parser::Rule>>>::try_from::parse_int", ["int"], {}, 4),
+    ("<variable::Variable as std::convert::TryFrom<pest::iterators::Pair<'_, simplesl_parser::Rule>>>::try_from", ["var_from_str"], {}, 11),
+]
+RADIX = {"binary_int": ("2", "0b"), "octal_int": ("8", "0o"), "decimal_int": ("10", None), "hexadecimal_int": ("16", "0x")}
+
+
+def _mentioned_rules(body):
+    """Rule unit variants named anywhere in the body (e.g. `pair.as_rule() == Rule::expr` comparisons)."""
+    out = set()
+    for _, s in body.assigns():
+        rv = s["rv"]
+        if rv["k"] == "agg" and rv.get("adt") == "simplesl_parser::Rule" and not rv["ops"]:
+            out.add(rv["variant"])
+        o = rv.get("o")
+        if isinstance(o, dict) and o.get("k") == "const" and o.get("ty") == "simplesl_parser::Rule":
+            out.add(o["val"].rsplit("::", 1)[-1])
+    return out
+
+
+def run_dispatch(ctx, only=None):
+    res = RuleResult("R-TABLES-D", "every alternative the grammar can hand to a pair-walking function has its own arm there (a missing "
+                                   "arm is a panic in unexpected!/unreachable!, or - for value literals - a form that can never be built)")
+    f = ctx.facts
+    g = Grammar(f.grammar)
+    lib = f.lib
+    for fn, rules, elsewhere, floor in DISPATCH:
+        if only and not any(r in only for r in rules):
+            continue
+        b = lib.body(fn)
+        short = ("Type::from(Pair)" if fn.endswith(">::from") else "Variable::try_from" if fn.endswith(">::try_from")
+                 else "Variable::try_from::parse_int" if fn.endswith("::parse_int") else "::".join(fn.rsplit("::", 2)[-2:]))
+        if not res.anchor(b is not None, fn):
+            continue
+        sw, arms = tablesrc.rule_dispatch(b)
+        if not res.anchor(sw is not None, "match on Rule in " + fn):
+            continue
+        handled = set(arms) | _mentioned_rules(b)
+        want = []
+        for r in rules:
+            if not res.anchor(r in g.rules, "grammar rule `%s`" % r):
+                continue
+            for k, n in g.alternatives(r):
+                if k == "rule":
+                    want.append(n)
+                else:
+                    # an inline expression alternative: its token-producing children
+                    pass
+        # `expr_in_brackets` / `body` style silent wrappers are expanded by alternatives(); de-duplicate
+        want = sorted(set(want))
+        res.floor(len(arms), floor, "arms:" + short)
+        for n in want:
+            key = "arm:%s:%s" % (short, n)
+            if n in handled:
+                res.ok(key, b.where(), "")
+            elif n in elsewhere:
+                res.ok(key, b.where(), elsewhere[n])
+            else:
+                res.bad(key, "grammar alternative `%s` of %s has no arm in %s" % (n, "/".join(rules), fn), b.where())
+        for n in sorted(set(arms) - set(want)):
+            # an arm for a rule the grammar cannot deliver here is dead code, not a violation; recorded as information
+            res.info.append("%s has an arm for `%s`, which %s cannot deliver" % (short, n, "/".join(rules)))
+    # integer literal radix table
+    if not only or "int" in only:
+        b = lib.body(DISPATCH[4][0])
+        if b is not None:
+            sw, arms = tablesrc.rule_dispatch(b)
+            for rule, (radix, prefix) in RADIX.items():
+                key = "radix:%s" % rule
+                a = arms.get(rule)
+                if a is None:
+                    continue
+                reg = set(arm_region(b, a["target"]))
+                consts = set()
+                for c in b.calls:
+                    if c.bb in reg and c.callee.endswith("parse_int_with_radix"):
+                        for x in c.args:
+                            if x.get("k") == "const" and "bits" in x:
+                                consts.add(x["bits"])
+                lit = None
+                if rule in g.rules:
+                    e = g.rules[rule]["expr"]
+                    lit = e["a"]["s"] if e["k"] == "seq" and e["a"]["k"] == "str" else None
+                if consts == {radix} and lit == prefix:
+                    res.ok(key, b.where(), "prefix %r -> radix %s" % (prefix, radix))
+                else:
+                    res.bad(key, "integer literal form `%s` (prefix %r) is parsed with radix %s, expected %s" % (rule, lit, sorted(consts), radix), b.where())
     return res
